@@ -65,6 +65,9 @@ func (r *recBalancer) Balance(msg kafka.Message, partitions ...int) int {
 	if !found {
 		st.s.Fail("C13", "R0-offered", "%T returned partition %d which is not among the offered %v", r.inner, p, partitions)
 	}
+	if want, name := refBalance(r.inner, msg.Key, len(partitions)); want >= 0 && p != want && found {
+		st.s.Fail("C13", "R1-reference-hash", "%s: key %x over %d partitions: got %d, the reference client picks %d", name, msg.Key, len(partitions), p, want)
+	}
 	if m := st.byID[msgID(msg.Value)]; m != nil {
 		m.chosen = p
 		m.nChosen++
